@@ -87,7 +87,7 @@ func (w *world) h2send(l *lease) {
 
 // the streams of a closed connection end (reset by the stream layer): wait for it, a stream that stays alive is a finding
 func (w *world) h2settleStreams(c int) {
-	w.wait("h2-streams-of-closed-connection", 300*time.Millisecond, func() bool {
+	w.wait("h2-streams-of-closed-connection", 20*time.Second, func() bool {
 		for _, l := range w.leases {
 			if cr := w.byConnID[l.connID]; cr != nil && cr.idx == c && l.live() && l.sent {
 				return false
@@ -104,7 +104,7 @@ func (w *world) h2apply(o op) []string {
 			w.h2send(l)
 			if cr := w.byConnID[l.connID]; cr != nil && cr.closedMosnSide() {
 				// the connection closed between lease and send: the send fails and the stream ends
-				w.wait("h2-send-on-closed-connection", 300*time.Millisecond, func() bool { return !l.live() })
+				w.wait("h2-send-on-closed-connection", 20*time.Second, func() bool { return !l.live() })
 			}
 		}
 		return nil
@@ -159,7 +159,7 @@ func (w *world) h2apply(o op) []string {
 			b := append(h2Frame(0x4, 0, 0, nil), h2Frame(0x7, 0, 0, []byte{0, 0, 0, 1, 0, 0, 0, 0})...) // SETTINGS, GOAWAY(last stream 1, NO_ERROR)
 			b = append(b, h2Frame(0x6, 0, 0, []byte{1, 2, 3, 4, 5, 6, 7, 8})...)                        // PING: its ack is the barrier
 			c.up.write(b)
-			w.wait("goaway-barrier", 300*time.Millisecond, func() bool {
+			w.wait("goaway-barrier", 20*time.Second, func() bool {
 				if atomic.LoadInt32(&c.closeEvs) > 0 {
 					return true
 				}
